@@ -67,9 +67,9 @@ func runC05(c *Ctx) error {
 		expelled := map[string]map[int]bool{} // key -> nodes whose ballot carried expels
 		// logical record ids in creation order
 		nextID := 0
-		keyID := map[string]int{}  // live key -> id
-		ptrID := map[string]int{}  // pointer -> id of the record it currently is
-		idKey := map[int]string{}  // id -> the key it was created for
+		keyID := map[string]int{} // live key -> id
+		ptrID := map[string]int{} // pointer -> id of the record it currently is
+		idKey := map[int]string{} // id -> the key it was created for
 		putSeen := 0
 		var poolIDs []int
 		reported := map[string]bool{}
@@ -276,7 +276,7 @@ func runC05(c *Ctx) error {
 				}
 			}
 		}
-			// the model keeps votes in arrival order; the real maps do not: the driver's output is normalised by the check below
+		// the model keeps votes in arrival order; the real maps do not: the driver's output is normalised by the check below
 		c.Case("seq "+strings.Join(toks, " "), snapshot)
 		c.Nontrivial(strings.Join(toks, " "))
 		if i%60 == 0 {
